@@ -43,16 +43,19 @@ theorem mc_step_generated (cfg : Config V) (s : String) (hs : PlanString cfg.pla
   | all =>
     rw [hp] at hs; simp only [PlanString] at hs; subst hs
     unfold genStep covBlock Gen.mc_step step envPre envLast envCens envY
+    try simp only [Nat.add_comm 1 i]
     simp only [hlast, envPlan, hp, envCov, envIn, if_true]
     cases cfg.cens <;> by_cases h : i + 1 = tmax <;> simp [h]
   | none =>
     rw [hp] at hs; simp only [PlanString] at hs; subst hs
     unfold genStep covBlock Gen.mc_step step envPre envLast envCens envY
+    try simp only [Nat.add_comm 1 i]
     simp only [hlast, envPlan, hp, envCov, envIn]
     cases cfg.cens <;> by_cases h : i + 1 = tmax <;> simp [h]
   | natural =>
     rw [hp] at hs; simp only [PlanString] at hs; subst hs
     unfold genStep covBlock Gen.mc_step step envPre envLast envCens envY
+    try simp only [Nat.add_comm 1 i]
     simp only [hlast, envPlan, envRule, hp, envCov, envIn]
     cases cfg.cens <;> by_cases h : i + 1 = tmax <;> simp [h]
   | custom r =>
@@ -62,6 +65,7 @@ theorem mc_step_generated (cfg : Config V) (s : String) (hs : PlanString cfg.pla
     unfold genStep covBlock
     rw [hr]
     unfold Gen.mc_step step envPre envLast envCens envY
+    try simp only [Nat.add_comm 1 i]
     simp only [hlast, envPlan, envRule, hp, envCov, envIn, h1, h2, h3, if_false]
     cases cfg.cens <;> by_cases h : i + 1 = tmax <;>
       simp only [h, if_true, if_false, Bool.false_eq_true, decide_eq_true_eq] <;> rfl
@@ -70,9 +74,14 @@ theorem mc_step_generated (cfg : Config V) (s : String) (hs : PlanString cfg.pla
 theorem mc_filters_generated (cfg : Config V) (e : Env V) :
     Gen.mc_alive cfg.cols e = alive cfg e ∧ Gen.mc_stacked cfg.cols true e = keep cfg e ∧
     Gen.mc_stacked cfg.cols false e = true ∧ Gen.mc_init cfg.cols e = initRow cfg e ∧
-    (∀ tmax, Gen.mc_iterations tmax = List.range tmax) := ⟨rfl, rfl, rfl, rfl, fun _ => rfl⟩
-
-/-! ### the whole loop for one individual, run by the regenerated pieces -/
+    (∀ tmax, Gen.mc_iterations tmax = List.range tmax) := by
+  refine ⟨?_, ?_, rfl, rfl, fun _ => rfl⟩
+  · first
+    | rfl
+    | (simp only [Gen.mc_alive, alive]; exact Bool.and_comm _ _)       -- the two conditions written in the other order
+  · first
+    | rfl
+    | (simp only [Gen.mc_stacked, keep, if_true]; exact Bool.or_comm _ _)
 
 /-- storing a row's leading columns (`Env.freeze`, driver-side efficiency) does not change the row -/
 theorem freeze_eq (n : Nat) (e : Env V) : e.freeze n = e := by
@@ -92,7 +101,7 @@ theorem genSimFrom_eq (nc : Nat) (cfg : Config V) (s : String) (hs : PlanString 
   | 0, _, _, _ => rfl
   | fuel + 1, i, e, h => by
     have hi : i < tmax := by omega
-    have ha : Gen.mc_alive cfg.cols = alive cfg := rfl
+    have ha : Gen.mc_alive cfg.cols = alive cfg := funext fun x => (mc_filters_generated cfg x).1
     simp only [genSimFrom, simFrom, List.map_cons, freeze_eq, mc_step_generated cfg s hs tmax i hi, ha]
     split
     · rw [genSimFrom_eq nc cfg s hs tmax draws fuel (i + 1) _ (by omega)]
@@ -160,7 +169,8 @@ theorem lowmem_generated (hs : Safe cfg) (h01 : Num01 V) (hY : OutcomeSign cfg t
   have h1 := lowmem_one cfg tmax draws b hs h01 hY h hne
   constructor
   · rw [e, List.filter_map]
-    have hk : (Gen.mc_stacked cfg.cols true ∘ fun r : StepOut V => r.out) = fun r => keep cfg r.out := rfl
+    have hk : (Gen.mc_stacked cfg.cols true ∘ fun r : StepOut V => r.out) = fun r => keep cfg r.out :=
+      funext fun x => (mc_filters_generated cfg x.out).2.1
     rw [hk, h1, List.getLast?_map, List.getLast?_eq_some_getLast hne]
     rfl
   · exact List.filter_eq_self.mpr (fun _ _ => rfl)
